@@ -15,7 +15,7 @@ from ..models import authserver as A
 
 PROPERTY_ID = 'C06'
 LEVEL = 'exploration'
-RULE = ('many_logins: 150 / 400 overlapping cookie logins (finished, cancelled, mixed) in a process whose descriptor limit is 48 '
+RULE = ('real/EXTERNAL: the peer ids the kernel reports are drawn (own uid/gid, 1000/100, 70000/1000, 1000/1000) and the client names the peer uid. many_logins: 150 / 400 overlapping cookie logins (finished, cancelled, mixed) in a process whose descriptor limit is 48 '
         'above current use, then the exchange that was open all along answers with the right cookie. cookie_overlap: three cookie exchanges of one user in every order, finished or cancelled, optionally with one of them '
         'begun more than the cookie lifetime before the others (its keyring entry back-dated by 31 s): every non-aged exchange '
         'answered with the right cookie is accepted. '
@@ -462,7 +462,13 @@ def run_framing(case):
 # --------------------------------------------------------------------------
 # real mechanisms against a spec-following client
 
-def _real_server(creds, scratch, log):
+def _peer_ids(case):
+    """uid and gid the kernel reports for the peer: this process's own, or those of an ordinary account whose primary
+    group has another number than its uid (users in a shared group), or a uid beyond 16 bits."""
+    return [(os.getuid(), os.getgid()), (1000, 100), (70000, 1000), (1000, 1000)][case.get('peer', 0) % 4]
+
+
+def _real_server(creds, scratch, log, ids=None):
     import txdbus.protocol as P
     from txdbus import authentication as AU
 
@@ -480,7 +486,7 @@ def _real_server(creds, scratch, log):
         P._is_linux = False
     else:
         P._is_linux = True
-        t.socket = N.StubSocket((4321, os.getuid(), os.getgid()))
+        t.socket = N.StubSocket((4321,) + tuple(ids or (os.getuid(), os.getgid())))
     return _protocol(Auth, log, t)
 
 
@@ -509,7 +515,7 @@ def run_real(case):
     log = _newlog()
     out = []
     try:
-        srv = _real_server(case.get('creds', 'none'), scratch, log)
+        srv = _real_server(case.get('creds', 'none'), scratch, log, _peer_ids(case) if case.get('mech') == 'EXTERNAL' else None)
         N.deliver(srv, b'\0')
         mech = case['mech']
         should = None
@@ -521,7 +527,7 @@ def run_real(case):
             r = _exchange(srv, b'AUTH ANONYMOUS' + (b' ' + _hx(b'verif-Trace/1.0 [J]') if case.get('trace') else b''))
             should = True
         elif mech == 'EXTERNAL':
-            uid = binascii.hexlify(str(os.getuid()).encode())
+            uid = _hx(str(_peer_ids(case)[0]).encode())      # the identity it asks for is its own: the uid of the peer process
             r = _exchange(srv, b'AUTH EXTERNAL' + (b' ' + uid if case.get('initial') else b''))
             # a spec-following client answers a DATA challenge of EXTERNAL with an (empty) DATA
             guard = 0
@@ -840,7 +846,7 @@ def real_case(draw, tier):
         return {'mech': mech, 'trace': draw(st.booleans()), 'creds': draw(st.sampled_from(['none', 'peer']))}
     if mech == 'EXTERNAL':
         return {'mech': mech, 'creds': draw(st.sampled_from(['peer', 'peer', 'none'])),
-                'initial': draw(st.booleans())}
+                'initial': draw(st.booleans()), 'peer': draw(st.integers(0, 3))}
     return {'mech': mech, 'variant': draw(st.sampled_from(COOKIE_VARIANTS)),
             'ident': draw(st.sampled_from(['name', 'uid'])),
             'nonce': draw(st.text(alphabet='abcdef0123', min_size=1, max_size=8)), 'creds': 'none',
@@ -849,7 +855,10 @@ def real_case(draw, tier):
 
 
 def classify_real(case):
-    return True, [case['mech'], case.get('variant') or case.get('creds')]
+    labels = [case['mech'], case.get('variant') or case.get('creds')]
+    if case['mech'] == 'EXTERNAL' and case.get('creds') == 'peer':
+        labels.append('peer uid %s gid' % ('==' if _peer_ids(case)[0] == _peer_ids(case)[1] else '!='))
+    return True, labels
 
 
 SUBCHECKS = [
